@@ -904,6 +904,10 @@ def run_oracle(prop, spec, external_cancel_at=None):
         # co_shutdown is sent once in a scheduler's life ("a later explicit shutdown() sends nothing more"): a
         # second run of the same tree is outside what C13 speaks of; the scenario is judged on its first run
         spec = dict(spec, rerun=False, rerun_edge=None)
+    if prop == 'C14' and spec.get('rerun') and any(m['type'] == 'sched' for m in spec['members']):
+        # the jobs of a nested scheduler keep the state of the previous run until the nested run begins: what the
+        # API says then is about that earlier run; trees with nesting are judged on their first run
+        spec = dict(spec, rerun=False, rerun_edge=None, session=None)
     sample = sample_predicates if prop == 'C14' else None
     b, r = execute(spec, external_cancel_at=external_cancel_at, sample=sample)
     v = View(b, r)
